@@ -176,19 +176,28 @@ func (in *objIndex) insertOrUpdate(o Object) (err error) {
 			}
 		}
 	} else {
-		for fn, fi := range in.Fields {
-			if v, ok := fieldByName(o, fi.nameSplit); ok {
-				if err = fi.Insert(v, in.i); err != nil {
-					return
-				}
-			} else {
-				return fmt.Errorf("%w %s", ErrUnkownField, fn)
+		return in.insertAs(o, in.i)
+	}
+	return nil
+}
+
+// insertAs indexes an Object the index does not know under a given id,
+// constraints must have been checked
+func (in *objIndex) insertAs(o Object, id uint64) (err error) {
+	for fn, fi := range in.Fields {
+		if v, ok := fieldByName(o, fi.nameSplit); ok {
+			if err = fi.Insert(v, id); err != nil {
+				return
 			}
+		} else {
+			return fmt.Errorf("%w %s", ErrUnkownField, fn)
 		}
-		// we insert after any potential error
-		in.ObjectIds[in.i] = o.UUID()
-		in.uuids[o.UUID()] = in.i
-		in.i++
+	}
+	// we insert after any potential error
+	in.ObjectIds[id] = o.UUID()
+	in.uuids[o.UUID()] = id
+	if id >= in.i {
+		in.i = id + 1
 	}
 	return nil
 }
